@@ -189,6 +189,66 @@ let handle_d (res : string) : unit =
       | _ -> ())
     (split_ws res)
 
+(* ---- DIMACS CNF ------------------------------------------------------------- *)
+
+let dump_cnf (p : Model.dproblem) : string =
+  Printf.sprintf "nv=%s | gates %s | root %s | names=false order=0" (string_of_n p.Model.dp_nvars)
+    (String.concat " "
+       (List.map
+          (fun (k, ins) ->
+            Printf.sprintf "%c:%s"
+              (match k with Model.DOr -> 'O' | Model.DXor -> 'X' | Model.DAnd -> 'A')
+              (String.concat "&" (List.map fmt_alit ins)))
+          p.Model.dp_gates))
+    (fmt_alit p.Model.dp_root)
+
+(* [N <opts> <hex>]: only the options without variable order / clause tree are modelled *)
+let handle_n c i (opl : string) (res : string) : bool =
+  match split_ws opl with
+  | [ _; mask; hexs ] ->
+    let wf = param c "t" = Some "cnfwf" in
+    stat "cnf_inputs" 1;
+    let bad kind msg =
+      verdict_bad c i kind (Printf.sprintf "%s; input=%s" msg hexs);
+      true
+    in
+    if starts_with "PANIC" res then (
+      stat "cnf_panics" 1;
+      bad "prop" ("DIMACS parser panicked: " ^ res))
+    else if int_of_string mask land 3 <> 0 then false
+    else begin
+      match Model.parse_cnf (bytes_of_hex hexs) with
+      | Model.DSat ->
+        stat "cnf_sat_format" 1;
+        false
+      | Model.DFuel -> bad "corr" "model parser ran out of fuel (excluded by theorem C18_dimacs_cnf_total)"
+      | Model.DErr ->
+        if res = "DIAG" then (
+          stat "cnf_both_diag" 1;
+          if wf then bad "corr" "generated CNF file rejected by model and implementation" else false)
+        else bad "corr" ("model says diagnostic, the implementation accepts: " ^ res)
+      | Model.DOk p ->
+        if res = "DIAG" then
+          if wf then bad "prop" "well-formed CNF file (written by the model's printer) rejected with a diagnostic"
+          else bad "corr" "model accepts, the implementation returns a diagnostic"
+        else begin
+          stat "cnf_both_ok" 1;
+          let d = if starts_with "OK " res then String.sub res 3 (String.length res - 3) else res in
+          let m = dump_cnf p in
+          if d <> m then bad "corr" ("parsed problem differs from the model's: " ^ first_diff d m) else false
+        end
+    end
+  | _ -> failwith ("bad N line: " ^ opl)
+
+let handle_m (res : string) : unit =
+  List.iter
+    (fun t ->
+      match String.split_on_char '=' t with
+      | [ "n"; v ] -> stat "cnf_mutated_inputs" (int_of_string v)
+      | [ "skipped"; v ] -> stat "cnf_mutated_skipped" (int_of_string v)
+      | _ -> ())
+    (split_ws res)
+
 (* ---- generator of well-formed problems ------------------------------------ *)
 
 let rng_state = ref 0L
@@ -278,6 +338,21 @@ let gen_problem (huge : bool) : Model.aproblem =
     ap_syms = syms;
   }
 
+let gen_cnf (n : int) : unit =
+  for k = 0 to n - 1 do
+    let nv = if chance 1 10 then 100 + below 900 else below 6 in
+    let nc = below 7 in
+    let clauses =
+      List.init nc (fun _ ->
+          let xor = chance 1 4 in
+          let len = if nv = 0 then 0 else match below 8 with 0 -> 0 | 1 -> 1 | _ -> 1 + below 5 in
+          (xor, List.init len (fun _ -> (chance 1 2, n_of_int (below nv)))))
+    in
+    Printf.printf "CASE f%d t=cnfwf\nN %d %s\nEND\n" k
+      (if chance 1 2 then 4 else 0)
+      (hex_of_bytes (Model.print_cnf (n_of_int nv) clauses))
+  done
+
 let gen (tier : string) (seed : string) : unit =
   rng_state := Int64.logxor (Int64.of_string seed) 0xa16e5L;
   let n = if tier = "thorough" then 60000 else 4000 in
@@ -290,4 +365,5 @@ let gen (tier : string) (seed : string) : unit =
       (hex_of_bytes (Model.print_aag p))
       mask
       (hex_of_bytes (Model.print_aig p))
-  done
+  done;
+  gen_cnf (if tier = "thorough" then 40000 else 3000)
